@@ -23,8 +23,9 @@ VARIABLES l,
           after,       \* a save/restore happened in this segment
           ctl,         \* control run: step number k -> [out (what was observed), sigs (failed obligations)]
           left,        \* diagnosis only: [idx -> mapping a previous mount may have left in the slot]
-          strays       \* diagnosis only: mappings given to mounts that failed (possibly left in some slot)
-tvars == <<l, segkind, after, ctl, left, strays>>
+          strays,      \* diagnosis only: mappings given to mounts that failed (possibly left in some slot)
+          rmroot       \* the instance of this segment was configured with set_remove_pseudo_root()
+tvars == <<l, segkind, after, ctl, left, strays, rmroot>>
 
 \* a failed obligation: signature, the obligation it is about (`key` = the signature without its diagnosis), detail
 F(ok, sig, d) == IF ok THEN <<>> ELSE <<[sig |-> sig, key |-> sig, d |-> ToString(d), drift |-> FALSE]>>
@@ -239,6 +240,11 @@ JudgeUmount(ev) ==
     IF ev.ret = "ok" THEN F(AUmountPre(ev.abs, ev.comps), "C07|umount|accepted-for-a-path-that-is-no-mount-point", ev.path)
     ELSE F(~AUmountPre(ev.abs, ev.comps), "C07|umount|mount-point-refused", ev.path),
     IF Has(ev, "pred") THEN FD(ev.pred.ok = (ev.ret = "ok"), "DRIFT|umount|result", ev.ret) ELSE <<>> >>)
+JudgeRemount(ev) ==
+  Cat(<<
+    F(ev.ret # "panic", "C07|remount|panic", ev.path),
+    IF ev.ret = "ok" THEN F(ARemountPre(ev.abs, ev.comps, ev.idx), "C07|remount|accepted-for-a-path-not-mounted-at-that-index", <<ev.path, ev.idx>>)
+    ELSE F(~ARemountPre(ev.abs, ev.comps, ev.idx), "C07|remount|re-attach-in-place-refused", <<ev.path, ev.idx>>) >>)
 JudgeInit(ev) ==
   Cat(<<
     IF ev.status = 0 THEN F(AInitPre, "C19|init|second-init-accepted" \o (IF negopt = "0" THEN "|first-init-offered-no-capability" ELSE ""), ev.opts)
@@ -283,7 +289,7 @@ RECURSIVE ReplyAt(_)
 ReplyAt(j) == IF j > Len(Rec) THEN 0 ELSE IF Rec[j].e = "Reply" THEN j ELSE IF Rec[j].e = "BackendCall" THEN ReplyAt(j + 1) ELSE 0
 
 Init == /\ l = 1 /\ segkind = "plain" /\ after = FALSE /\ ctl = <<>> /\ left = [i \in 0..N-1 |-> NoMap]
-        /\ strays = {} /\ AInit(NoMap)
+        /\ strays = {} /\ rmroot = FALSE /\ AInit(NoMap)
 
 StepReset(r) ==
   /\ slot' = [i \in 0..N-1 |-> Vacant] /\ mroot' = [i \in 0..N-1 |-> NoRoot]
@@ -291,6 +297,7 @@ StepReset(r) ==
   /\ pn' = EmptyTree /\ nextino' = 2 /\ mp' = <<>> /\ issued' = {}
   /\ inited' = FALSE /\ negopt' = "" /\ noopen' = r.opts.no_open /\ noopendir' = r.opts.no_opendir
   /\ segkind' = r.kind /\ after' = FALSE /\ left' = [i \in 0..N-1 |-> NoMap] /\ strays' = {}
+  /\ rmroot' = ("remove_pseudo_root" \in DOMAIN r.opts /\ r.opts.remove_pseudo_root)
   /\ ctl' = IF r.kind = "persist" THEN ctl ELSE <<>>
   /\ l' = l + 1
 
@@ -306,7 +313,7 @@ StepPrefill(r) ==
      /\ slot' = [i \in 0..N-1 |-> IF i >= r.first /\ i <= r.last THEN r.backend ELSE Vacant]
      /\ mroot' = [i \in 0..N-1 |-> IF i >= r.first /\ i <= r.last THEN [low |-> r.rootlow, uid |-> Zero, gid |-> Zero] ELSE NoRoot]
      /\ mp' = [n \in {kid(i) : i \in r.first..r.last} |-> n - d]
-     /\ UNCHANGED <<given, gmap, issued, inited, negopt, noopen, noopendir, segkind, after, ctl, left, strays>>
+     /\ UNCHANGED <<given, gmap, issued, inited, negopt, noopen, noopendir, segkind, after, ctl, left, strays, rmroot>>
      /\ l' = l + 1
 
 StepMount(r) ==
@@ -320,23 +327,30 @@ StepMount(r) ==
              /\ UNCHANGED strays
         ELSE /\ UNCHANGED <<avars, left>>
              /\ strays' = IF r.some THEN strays \cup {r.map} ELSE strays
-     /\ UNCHANGED <<segkind, after>> /\ l' = l + 1
+     /\ UNCHANGED <<segkind, after, rmroot>> /\ l' = l + 1
 
 StepUmount(r) ==
   \E fs \in {JudgeUmount(r)} : \E out \in {[ret |-> r.ret]} :
      /\ PrintAll(Report(r.k, "umount", out, fs))
      /\ Remember(r.k, out, fs)
      /\ IF r.ret = "ok" /\ AUmountPre(r.abs, r.comps)
-        THEN AUmountEff(r.comps) /\ left' = [left EXCEPT ![mp[Walk(r.comps)]] = NoMap]
+        THEN AUmountEff(r.comps, rmroot) /\ left' = [left EXCEPT ![mp[Walk(r.comps)]] = NoMap]
         ELSE UNCHANGED <<avars, left>>
-     /\ UNCHANGED <<segkind, after, strays>> /\ l' = l + 1
+     /\ UNCHANGED <<segkind, after, strays, rmroot>> /\ l' = l + 1
+
+StepRemount(r) ==
+  \E fs \in {JudgeRemount(r)} : \E out \in {[ret |-> r.ret, idx |-> r.idx]} :
+     /\ PrintAll(Report(r.k, "remount", out, fs))
+     /\ Remember(r.k, out, fs)
+     /\ IF r.ret = "ok" /\ ARemountPre(r.abs, r.comps, r.idx) THEN ARemountEff(r.backend, r.root, r.idx) ELSE UNCHANGED avars
+     /\ UNCHANGED <<segkind, after, left, strays, rmroot>> /\ l' = l + 1
 
 StepInit(r) ==
   \E fs \in {JudgeInit(r)} : \E out \in {[status |-> r.status, opts |-> r.opts]} :
      /\ PrintAll(Report(r.k, "init", out, fs))
      /\ Remember(r.k, out, fs)
      /\ IF r.status = 0 /\ AInitPre THEN AInitEff(r.opts, r.zmo, r.zmod) ELSE UNCHANGED avars
-     /\ UNCHANGED <<segkind, after, left, strays>> /\ l' = l + 1
+     /\ UNCHANGED <<segkind, after, left, strays, rmroot>> /\ l' = l + 1
 
 StepSaveRestore(r) ==
   /\ TRUE = (IF r.ret \in {"ok", "skipped"} THEN TRUE
@@ -345,19 +359,19 @@ StepSaveRestore(r) ==
              THEN PrintT(<<"VIOL", "C19|save-restore-v" \o ToString(r.version) \o "|backend-not-reattached", l, ToString(r.steps)>>) ELSE TRUE)
   /\ ASaveRestore
   /\ after' = (after \/ r.ret = "ok")
-  /\ UNCHANGED <<segkind, ctl, left, strays>> /\ l' = l + 1
+  /\ UNCHANGED <<segkind, ctl, left, strays, rmroot>> /\ l' = l + 1
 
 StepReq(q) ==
   \E j \in {ReplyAt(l + 1)} :
   IF j = 0 THEN /\ PrintT(<<"VIOL", "C07|trace|request-without-reply-event", l, ToString(q)>>)
-                /\ UNCHANGED <<avars, segkind, after, ctl, left, strays>> /\ l' = l + 1
+                /\ UNCHANGED <<avars, segkind, after, ctl, left, strays, rmroot>> /\ l' = l + 1
   ELSE \E calls \in {SubSeq(Rec, l + 1, j - 1)} : \E rep \in {Rec[j]} :
        \E fs \in {JudgeReq(q, calls, rep) \o Drift(q, calls, rep)} :
        \E out \in {IF segkind = "plain" THEN <<>> ELSE [calls |-> [i \in 1..Len(calls) |-> Strip(calls[i])], rep |-> Strip(rep)]} :
           /\ PrintAll(Report(q.k, q.op, out, fs))
           /\ Remember(q.k, out, fs)
           /\ AIssue(Handed(q, calls, rep))
-          /\ UNCHANGED <<segkind, after, left, strays>> /\ l' = j + 1
+          /\ UNCHANGED <<segkind, after, left, strays, rmroot>> /\ l' = j + 1
 
 Step ==
   /\ l <= Len(Rec)
@@ -367,10 +381,11 @@ Step ==
        [] r.e = "Mount" -> StepMount(r)
        [] r.e = "Umount" -> StepUmount(r)
        [] r.e = "Init" -> StepInit(r)
+       [] r.e = "Remount" -> StepRemount(r)
        [] r.e = "SaveRestore" -> StepSaveRestore(r)
        [] r.e = "Req" -> StepReq(r)
-       [] OTHER -> UNCHANGED <<avars, segkind, after, ctl, left, strays>> /\ l' = l + 1
-Done == l = Len(Rec) + 1 /\ PrintT(<<"ACCEPTED", Len(Rec)>>) /\ l' = l + 1 /\ UNCHANGED <<avars, segkind, after, ctl, left, strays>>
+       [] OTHER -> UNCHANGED <<avars, segkind, after, ctl, left, strays, rmroot>> /\ l' = l + 1
+Done == l = Len(Rec) + 1 /\ PrintT(<<"ACCEPTED", Len(Rec)>>) /\ l' = l + 1 /\ UNCHANGED <<avars, segkind, after, ctl, left, strays, rmroot>>
 Next == Step \/ Done
 \* the trace is deterministic and l only grows: fingerprint the position, not the (large) state
 TraceView == l
